@@ -21,7 +21,7 @@ RULE = (
     "evaluated), predicate P = train>=1 and cal>=1 and alpha*(1+1/cal)<1; (b) every alpha in {k/100} x n in [2, min+12] (n<=60): the real "
     "nonparametric model on real handler frames must produce finite intervals iff P, and its observed calibration size must equal n-train; "
     "(c) real client for nonparametric/gaussian/bootstrap, n in [min-1, min+12]/[min-1,min+3], multi-alpha, non-modelled reporting units "
-    "present, 1 / 3 / 5 covariates, duplicate ids (exact copy / other counts / other percent). non-trivial = the state sits within 12 units of a decision boundary (minimum, or P flips)"
+    "present, 1 / 3 / 5 covariates, duplicate ids (exact copy / other counts / other percent); every ordered pair of six requests of different difficulty on one long-lived client. non-trivial = the state sits within 12 units of a decision boundary (minimum, or P flips)"
 )
 ASSUMPTIONS = [
     "P's training-row expression is the source line of ConformalElectionModel.get_unit_prediction_interval_bounds (harness error if it cannot be extracted)",
@@ -110,6 +110,11 @@ def cases(tier, seed):
         for n in range(mn - 2, mn + 4):
             for extras in (0, 2):
                 out.append({"kind": "client", "pm": pm, "alphas": [0.7, 0.9], "n": n, "extras": extras, "seed": seed})
+    # one long-lived client answers requests of different difficulty: each request is judged by its own minimum
+    menu = [("nonparametric", [0.9], 25), ("nonparametric", [0.9], 12), ("nonparametric", [0.7], 12), ("gaussian", [0.7, 0.9], 9), ("nonparametric", [0.5], 4), ("bootstrap", [0.9], 12)]
+    for i in range(len(menu)):
+        for j in range(len(menu)):
+            out.append({"kind": "client_history", "steps": [list(menu[i]), list(menu[j])], "seed": seed})
     # covariates do not enter the minimum: with a feature list the run must still complete at the minimum
     for pm, alphas_, mn in (("nonparametric", [0.7], 6), ("nonparametric", [0.9], 19), ("gaussian", [0.7, 0.9], 7)):
         for nfeat in (1, 3, 5):
@@ -234,6 +239,32 @@ def evaluate(case):
             uniq.setdefault(v["sig"], v)
         return {"violations": list(uniq.values()), "cov": dict(cov), "outcome": sha(outcomes), "nontrivial": True, "transitions": runs}
 
+    if kind == "client_history":
+        from elexmodel.client import ModelClient
+        from elexmodel.models.BootstrapElectionModel import BootstrapElectionModel
+        from elexmodel.models.GaussianElectionModel import GaussianElectionModel
+
+        client = ModelClient()
+        outcomes = []
+        for k, (pm, alphas, n) in enumerate(case["steps"]):
+            units = _units(case["seed"], n, 0, pm)
+            cfg = S.cfg_for({"nonparametric": "np1", "gaussian": "ga1", "bootstrap": "bs1"}[pm], "pc_cf", "drop", 100)
+            cfg["alphas"] = list(alphas)
+            mcls = {"nonparametric": NonparametricElectionModel, "gaussian": GaussianElectionModel, "bootstrap": BootstrapElectionModel}[pm]
+            mn = max(mcls({"features": cfg["features"]}).get_minimum_reporting_units(a) for a in alphas)
+            res = E.run_estimates(units, cfg, client=client)
+            if "error" in res:
+                outcome = res["error"][0]
+            else:
+                fin, where = _finite_tables(res["ok"])
+                outcome = "completed" if fin else "completed-nonfinite"
+            expected = "completed" if n >= mn else "ModelNotEnoughSubunitsException"
+            if outcome != expected:
+                V.append({"sig": f"C14:history:{pm}:{'above' if n >= mn else 'below'}-minimum:{outcome}", "msg": f"one client, requests {case['steps']}: request {k + 1} ({pm} alphas={alphas}, {n} modelled reporting units, own minimum {mn}) expected {expected}, got {outcome} {res.get('error', ['', ''])[1][:150] if 'error' in res else ''}"})
+            outcomes.append(outcome)
+            cov["history_requests"] += 1
+        return {"violations": V, "cov": dict(cov), "outcome": sha(outcomes), "nontrivial": True, "transitions": len(case["steps"])}
+
     # client
     pm = case["pm"]
     n = case["n"]
@@ -303,4 +334,4 @@ def post(cases, results, tier, seed):
     return {"cov": {}}
 
 
-REQUIRED_COUNTERS = {"arith_states": 1000000, "P_true_finite": 100, "below_minimum": 10, "exactly_minimum": 5, "duplicate_ids": 9, "runs_with_covariates": 30}
+REQUIRED_COUNTERS = {"arith_states": 1000000, "P_true_finite": 100, "below_minimum": 10, "exactly_minimum": 5, "duplicate_ids": 9, "runs_with_covariates": 30, "history_requests": 60}
